@@ -164,17 +164,7 @@ impl Writer {
             }
             lemma_frame_trans(v0, v7, v8, i, true, true, true, true);
         }
-//@spec
-    requires
-        // the representation invariant of the index (established by the previous build, kept by the item operations)
-        index_inv(old(wtxn).view(), self.index, cap_of(options, self.dimensions)),
-        cap_of(options, self.dimensions) >= 1, 1 <= self.dimensions <= u32::MAX,
-    ensures
-        // C01 / C05 / C06 / C15 / C18: see `built`
-        r is Ok ==> built(old(wtxn).view(), final(wtxn).view(), self.index, cap_of(options, self.dimensions), self.dimensions as u32, options.n_trees),
-        r matches Err(e) ==> build_err(e),
-        // C07: whatever happens, only keys of this index are written
-        same_except(old(wtxn).view(), final(wtxn).view(), self.index, true, true, true, true),
+//@specfile lib/contracts/build.spec
 //@end
 }
 } // verus!
